@@ -25,6 +25,8 @@ EXTENDS Integers, FiniteSets, TLC
 CONSTANTS Conns, MaxReq, NoConn,
           Listeners,         \* listeners of the one Server, each served by its own Serve call
           CloseOnShutdown,   \* Server.CloseOnShutdown
+          ReduceMem,         \* Server.ReduceMemoryUsage: reader, writer and ctx are given back between requests (the first
+                             \* byte is awaited by acquireByteReader), so every response is flushed at once
           FlushOnStop,       \* the loop flushes buffered responses before leaving on stop
           IdleWhenDrained,   \* the loop marks the connection idle only if no further request is buffered
           AtomicIdleClose,   \* closeIdleConns claims an idle connection atomically (compare-and-swap)
@@ -182,7 +184,7 @@ WriteResp(c) ==
   /\ UNCHANGED <<svars, serveRunning, accepting, open, mark, inmap, netClosed, cclosed, tout, wire, buf, sent, nstart, delivered, lost>>
 
 ConnClose == CloseOnShutdown /\ stop       \* connectionClose computed before the write
-FlushWanted(c) == buf[c] = 0 \/ ConnClose
+FlushWanted(c) == buf[c] = 0 \/ ConnClose \/ ReduceMem
 
 FlushEffect(c) ==
   /\ ph[c] = "written" /\ ~netClosed[c]
@@ -205,13 +207,15 @@ CloseBreak(c) ==
   /\ ph' = [ph EXCEPT ![c] = "leaving"]
   /\ UNCHANGED <<svars, serveRunning, accepting, open, mark, inmap, netClosed, cclosed, tout, wire, buf, sent, nstart, unflushed, delivered, lost>>
 
-\* idleConnTime.Store(ctx.time.Unix())
-MarkIdleEffect(c) ==
+\* if br == nil || br.Buffered() == 0 { idleConnTime.Store(ctx.time.Unix()) }   (keep: the stamp is left as it is)
+MarkIdleTo(c, keep) ==
   /\ ph[c] \in {"written", "flushed"}
-  /\ mark' = [mark EXCEPT ![c] = IF IdleWhenDrained /\ ph[c] = "written" THEN @
+  /\ mark' = [mark EXCEPT ![c] = IF keep THEN @
                                  ELSE IF tout[c] THEN "idleOld" ELSE "idle"]   \* ctx.time of a fresh ctx is the zero Time
   /\ ph' = [ph EXCEPT ![c] = "check"]
   /\ UNCHANGED <<svars, serveRunning, accepting, open, inmap, netClosed, cclosed, tout, wire, buf, sent, nstart, unflushed, delivered, lost>>
+\* with another request already buffered the connection is not idle (an unflushed response implies one)
+MarkIdleEffect(c) == MarkIdleTo(c, IdleWhenDrained /\ (ph[c] = "written" \/ buf[c] > 0))
 MarkIdle(c) == /\ (ph[c] = "written" => ~FlushWanted(c)) /\ (ph[c] = "flushed" => ~ConnClose)
                /\ MarkIdleEffect(c)
 
